@@ -932,7 +932,7 @@ def publish_failure_as_status(fn_node):
     return out
 
 
-_QUANTITY_OR = _re_mod.compile(r"^(mode|mtime|size|uid|gid|perms|expected_size|inode|dev|revision|rev)$")
+_QUANTITY_OR = _re_mod.compile(r"^(mode|mtime|size|uid|gid|perms|expected_size|inode|dev|revision|rev|offset)$")
 
 
 def quantity_or_default(fn_node):
@@ -1007,4 +1007,127 @@ def unbalanced_peer_args(fn_node):
             diff = sorted((sa - oa).keys()) + sorted((oa - sa).keys())
             out.append((c, f"unbalanced-peer-args:{','.join(diff)[:30]}", f"`{A.unparse(c)[:80]}` takes {dict(sa)} from self but {dict(oa)} from {o}: the two operands do not contribute the "
                         f"same fields, so the result ignores (or doubles) one side's `{diff[0]}`"))
+    return out
+
+
+def id_in_hash(fn_node):
+    """``__hash__`` built from ``id(...)`` of parts while ``__eq__`` compares the parts by value: equal objects whose parts are
+    equal-but-distinct instances hash differently (dict / set / cache lookups miss)."""
+    out = []
+    if getattr(fn_node, "name", "") != "__hash__":
+        return out
+    for c in ast.walk(fn_node):
+        if (isinstance(c, ast.Call) and isinstance(c.func, ast.Name) and c.func.id == "id") or (isinstance(c, ast.Name) and c.id == "id" and isinstance(getattr(c, "_parent", None), ast.Call)
+                                                                                              and c in getattr(c._parent, "args", [])):
+            out.append((c, "id-in-hash", "`__hash__` is computed from the identity (`id`) of the object's parts: two objects that compare equal but were built from equal, distinct parts "
+                        "hash differently"))
+            break
+    return out
+
+
+def set_op_with_sequence_default(fn_node):
+    """``seen |= groups.get(name, ())`` — the in-place set operators accept only sets; the tuple / list fallback for a missing
+    key raises TypeError exactly in the "unknown name" case the fallback was written for (``.update()`` accepted any iterable)."""
+    out = []
+    for n in ast.walk(fn_node):
+        if isinstance(n, ast.AugAssign) and isinstance(n.op, (ast.BitOr, ast.BitAnd, ast.Sub, ast.BitXor)):
+            v = n.value
+            dflt = None
+            if isinstance(v, ast.Call) and isinstance(v.func, ast.Attribute) and v.func.attr == "get" and len(v.args) == 2:
+                dflt = v.args[1]
+            elif isinstance(v, (ast.Tuple, ast.List)) and not v.elts:
+                dflt = v
+            if isinstance(dflt, (ast.Tuple, ast.List)):
+                out.append((n, "set-op-sequence-default", f"`{A.unparse(n)[:60]}` applies an in-place set operator to a value that falls back to `{A.unparse(dflt)}`: for a set on the left "
+                            f"this raises TypeError in exactly the missing-key case"))
+    return out
+
+
+def loop_flag_overwritten(fn_node):
+    """``changed = False; for x in xs: ...; changed = cond(x)`` (or ``if changed := cond(x):``) and ``changed`` is consulted after
+    the loop: the flag is overwritten by every item instead of accumulated, so only the LAST item decides."""
+    out = []
+    for loop in [n for n in ast.walk(fn_node) if isinstance(n, (ast.For, ast.While))]:
+        par_body = None
+        par = getattr(loop, "_parent", None)
+        for fld in ("body", "orelse", "finalbody"):
+            b = getattr(par, fld, None)
+            if isinstance(b, list) and loop in b:
+                par_body = b
+        if par_body is None:
+            continue
+        idx = par_body.index(loop)
+        init = {}
+        for st in par_body[:idx]:
+            if isinstance(st, ast.Assign) and len(st.targets) == 1 and isinstance(st.targets[0], ast.Name) and isinstance(st.value, ast.Constant) and st.value.value is False:
+                init[st.targets[0].id] = st
+        if isinstance(loop, ast.While) and isinstance(loop.test, ast.Name):
+            # while flag: flag = False; for ...: flag = <expr>   (the re-arm of a fixpoint loop)
+            first = loop.body[0] if loop.body else None
+            if isinstance(first, ast.Assign) and len(first.targets) == 1 and isinstance(first.targets[0], ast.Name) and first.targets[0].id == loop.test.id \
+                    and isinstance(first.value, ast.Constant) and first.value.value is False:
+                for inner in [n for n in ast.walk(loop) if isinstance(n, ast.For) and n is not loop]:
+                    _flag_writes(inner, loop.test.id, out, "the enclosing `while` consults it to decide whether to go round again")
+            continue
+        if not init:
+            continue
+        used_after = {n.id for st in par_body[idx + 1:] for n in ast.walk(st) if isinstance(n, ast.Name) and isinstance(n.ctx, ast.Load)}
+        for name in init:
+            if name in used_after:
+                _flag_writes(loop, name, out, "it is consulted after the loop")
+    return out
+
+
+def _flag_writes(loop, name, out, why):
+    for n in ast.walk(loop):
+        val = None
+        if isinstance(n, ast.Assign) and len(n.targets) == 1 and isinstance(n.targets[0], ast.Name) and n.targets[0].id == name:
+            val = n.value
+        elif isinstance(n, ast.NamedExpr) and isinstance(n.target, ast.Name) and n.target.id == name:
+            val = n.value
+        if val is None or isinstance(val, ast.Constant):
+            continue
+        if any(isinstance(x, ast.Name) and x.id == name for x in ast.walk(val)):
+            continue  # changed = changed or ...
+        out.append((n, f"loop-flag-overwritten:{name}", f"`{A.unparse(n)[:60]}` assigns the flag `{name}` afresh for every item of the loop; {why}, so only the last item's outcome counts "
+                    f"(accumulate: `{name} = {name} or ...` / set it to True under the condition)"))
+
+
+def identity_on_quantity(fn_node):
+    """``x.uid is bad`` — identity instead of equality on numbers: true for CPython's cached small ints (the classic 250 / 1 / 2
+    of the test fixtures), false for the same value above 256 or read from stat(), so the branch silently never fires there."""
+    out = []
+    for c in ast.walk(fn_node):
+        if isinstance(c, ast.Compare) and len(c.ops) == 1 and isinstance(c.ops[0], (ast.Is, ast.IsNot)):
+            sides = [c.left, c.comparators[0]]
+            if any(isinstance(s, ast.Constant) and (s.value is None or isinstance(s.value, bool) or s.value is Ellipsis) for s in sides):
+                continue
+            for s in sides:
+                nm = s.attr if isinstance(s, ast.Attribute) else (s.id if isinstance(s, ast.Name) else None)
+                if nm and _QUANTITY_OR.match(nm):
+                    out.append((c, f"identity-on-quantity:{nm}", f"`{A.unparse(c)}` compares a number by identity: it holds for small cached ints only, not for equal values above 256 "
+                                f"or obtained from stat()/pwd"))
+                    break
+    return out
+
+
+def conditional_reraise(fn_node):
+    """``except Exception: if f is not None: f.discard(); raise`` — the ``raise`` ended up under a condition that has nothing to do
+    with the exception: when the condition is false the handler falls through and the failure is swallowed."""
+    out = []
+    for t in ast.walk(fn_node):
+        if not isinstance(t, ast.Try):
+            continue
+        for h in t.handlers:
+            if not h.body:
+                continue
+            last = h.body[-1]
+            if isinstance(last, ast.If) and not last.orelse and last.body and isinstance(last.body[-1], ast.Raise) and last.body[-1].exc is None:
+                mentions_exc = h.name is not None and any(isinstance(n, ast.Name) and n.id == h.name for n in ast.walk(last.test))
+                others_raise = any(isinstance(n, ast.Raise) for s in h.body[:-1] for n in ast.walk(s))
+                params = {a.arg for a in ast.walk(fn_node.args) if isinstance(a, ast.arg)} if hasattr(fn_node, "args") else set()
+                policy_flag = any(isinstance(n, ast.Name) and n.id in params and n.id not in ("self", "cls") for n in ast.walk(last.test))
+                if not mentions_exc and not others_raise and not policy_flag:
+                    out.append((last, "conditional-reraise", f"the handler's bare `raise` sits under `if {A.unparse(last.test)[:50]}`, a condition unrelated to the exception: when it is false "
+                                f"the handler falls through and the failure is silently swallowed"))
     return out
